@@ -300,6 +300,36 @@ func vScripts() []vScript {
 			k.Timestamp = time.Unix(1700000100, 0)
 			dr.opMsg(k)
 		}},
+		{"c13-more-recorded-signatures-than-keys-of-the-snapshot-set-at-settlement", func(dr *vDriver, w *vWorld) {
+			// peers of a LARGE old set observe a message first (their signatures are parked), the set rotates to a SMALL one, the node
+			// observes the message (the entry is pinned to the small set), a member of the new set observes too: the entry now holds more
+			// signatures than its set has keys; settlement (30 s) and the following ticks must cope with that (any "missing = keys - have"
+			// arithmetic is negative here)
+			old := members(7, -1)
+			small := []int{-1, 50, 51}
+			dr.opClock(1000)
+			dr.opSetGS(w.set(old, 4))
+			k := w.msg(0)
+			d := digestOfMsg(k, 0)
+			for _, m := range old[:5] {
+				dr.opObs(w.obsBy(m, d, k.TxHash[:]), "member")
+			}
+			dr.opSetGS(w.set(small, 5))
+			dr.opMsg(k)
+			dr.opObs(w.obsBy(50, d, k.TxHash[:]), "member")
+			T := int64(1000)
+			for i := 0; i < 4; i++ {
+				if !tick(dr, &T, 31) {
+					return
+				}
+			}
+			dr.opLoop(0)
+			for i := 0; i < 3; i++ {
+				if !tick(dr, &T, 301) {
+					return
+				}
+			}
+		}},
 		{"c13-duplicate-observation-for-a-settled-completed-entry", func(dr *vDriver, w *vWorld) {
 			mem := members(3, 1)
 			dr.opClock(1000)
